@@ -1297,6 +1297,10 @@ class StatsTr:
     def shares(self, e):
         """may the value of the read expression e contain a mutable part of the parser?  (flat Counters hold
         strings and ints only; the indexed dicts hold Counters)"""
+        if isinstance(e, ast.Call) and isinstance(e.func, ast.Name) and e.func.id in ("len", "str", "int", "float", "repr", "round"):
+            return False       # a number / a string, whatever it was computed from
+        if isinstance(e, (ast.Compare, ast.BoolOp, ast.JoinedStr, ast.Constant)):
+            return isinstance(e, ast.BoolOp) and any(self.shares(v) for v in e.values)
         for n in ast.walk(e):
             c = self.counter_of(n) if isinstance(n, (ast.Attribute, ast.Name)) else None
             if c in PO_INDEXED:
